@@ -150,8 +150,124 @@ func aliasCheck(repo string) (aliasCheckFacts, error) {
 	return af, nil
 }
 
+// go/ast fact about core/task/task.go, BuildPropertyMap (identified with the model's configuration by
+// C13_property_order_is_code).
+//
+// declaredPropertiesBeforeChannelConfig — holds iff, in the body of BuildPropertyMap,
+//   - exactly ONE loop ranges over `t.GetProperties()` (anywhere in the function), and its body assigns its
+//     key/value variables into the result map (`propMap[k] = v`),
+//   - exactly one statement at the same block level contains the calls `.ToFMQMap(` (the block "For FAIRMQ
+//     tasks, we append FairMQ channel configuration") and the properties loop stands BEFORE it in that block,
+//   - inside that statement every `propMap[k] = v` stands in a loop over the value `ToFMQMap` returned
+//     (the generated keys are written unconditionally, not "only if absent").
+// Then a generated channel key always replaces a declared property of the same name (model:
+// Cfg.generatedLast). The differential run ties the exact contents of the map.
+type orderFacts struct {
+	propLoops       int  // loops over t.GetProperties() in BuildPropertyMap
+	copiesIntoMap   bool // the loop body is `propMap[k] = v`
+	channelBlocks   int  // sibling statements containing .ToFMQMap(
+	propsFirst      bool // the properties loop stands before the channel block, same block
+	unconditionalFM bool // no `if _, ok := propMap[k]` style guard around the generated writes
+	ok              bool
+}
+
+func propertyOrder(repo string) (orderFacts, error) {
+	var of orderFacts
+	fset := token.NewFileSet()
+	f, err := parser.ParseFile(fset, filepath.Join(repo, "core/task/task.go"), nil, 0)
+	if err != nil {
+		return of, err
+	}
+	var fn *ast.FuncDecl
+	for _, d := range f.Decls {
+		if fd, ok := d.(*ast.FuncDecl); ok && fd.Name.Name == "BuildPropertyMap" && fd.Body != nil {
+			fn = fd
+		}
+	}
+	if fn == nil {
+		return of, fmt.Errorf("core/task/task.go: BuildPropertyMap not found")
+	}
+	// name of the result map
+	res := "propMap"
+	if fn.Type.Results != nil && len(fn.Type.Results.List) > 0 && len(fn.Type.Results.List[0].Names) > 0 {
+		res = fn.Type.Results.List[0].Names[0].Name
+	}
+	isPropLoop := func(st ast.Stmt) (*ast.RangeStmt, bool) {
+		rs, ok := st.(*ast.RangeStmt)
+		if !ok {
+			return nil, false
+		}
+		return rs, strings.HasSuffix(nodeStr(fset, rs.X), ".GetProperties()")
+	}
+	ast.Inspect(fn.Body, func(n ast.Node) bool {
+		if st, ok := n.(ast.Stmt); ok {
+			if _, yes := isPropLoop(st); yes {
+				of.propLoops++
+			}
+		}
+		return true
+	})
+	// the block that holds the properties loop
+	ast.Inspect(fn.Body, func(n ast.Node) bool {
+		blk, ok := n.(*ast.BlockStmt)
+		if !ok {
+			return true
+		}
+		var loop *ast.RangeStmt
+		for _, st := range blk.List {
+			if rs, yes := isPropLoop(st); yes {
+				loop = rs
+			}
+		}
+		if loop == nil {
+			return true
+		}
+		k, kok := loop.Key.(*ast.Ident)
+		v, vok := loop.Value.(*ast.Ident)
+		if kok && vok && len(loop.Body.List) == 1 {
+			of.copiesIntoMap = nodeStr(fset, loop.Body.List[0]) == fmt.Sprintf("%s[%s] = %s", res, k.Name, v.Name)
+		}
+		for _, st := range blk.List {
+			if _, yes := isPropLoop(st); yes {
+				continue
+			}
+			txt := nodeStr(fset, st)
+			if !strings.Contains(txt, ".ToFMQMap(") {
+				continue
+			}
+			of.channelBlocks++
+			of.propsFirst = loop.Pos() < st.Pos()
+			// generated writes: every assignment into the result map inside the block is a plain `res[k] = v`
+			// directly inside a range loop (no surrounding `if … ok` on the result map)
+			of.unconditionalFM = true
+			ast.Inspect(st, func(m ast.Node) bool {
+				is, ok := m.(*ast.IfStmt)
+				if !ok {
+					return true
+				}
+				cond := nodeStr(fset, is.Cond)
+				ini := ""
+				if is.Init != nil {
+					ini = nodeStr(fset, is.Init)
+				}
+				if strings.Contains(cond, res+"[") || strings.Contains(ini, res+"[") {
+					of.unconditionalFM = false
+				}
+				return true
+			})
+		}
+		return false
+	})
+	of.ok = of.propLoops == 1 && of.copiesIntoMap && of.channelBlocks == 1 && of.propsFirst && of.unconditionalFM
+	return of, nil
+}
+
 func genFacts(repo string) (string, error) {
 	af, err := aliasCheck(repo)
+	if err != nil {
+		return "", err
+	}
+	of, err := propertyOrder(repo)
 	if err != nil {
 		return "", err
 	}
@@ -165,6 +281,13 @@ func genFacts(repo string) (string, error) {
 	fmt.Fprintf(&b, "/-- (variables holding the declarations, top-level loops over one, of which rejecting, before the local-bind-map loop, guarded by the name) -/\n"+
 		"def aliasCheckCounts : Nat × Nat × Nat × Bool × Bool := (%d, %d, %d, %v, %v)\n\n",
 		af.declVars, af.declLoops, af.rejectingLoops, af.beforeLocalLoop, af.guardedByName)
+	b.WriteString("/-- core/task/task.go, BuildPropertyMap (go/ast): the one loop over `t.GetProperties()` copies into the result map and\n" +
+		"    stands, in the same block, BEFORE the one statement that calls `ToFMQMap` and copies the generated channel keys,\n" +
+		"    which are written unconditionally -/\n")
+	fmt.Fprintf(&b, "def declaredPropertiesBeforeChannelConfig : Bool := %v\n\n", of.ok)
+	fmt.Fprintf(&b, "/-- (loops over GetProperties(), body is `propMap[k] = v`, sibling statements calling ToFMQMap, properties first, generated writes unguarded) -/\n"+
+		"def propertyOrderCounts : Nat × Bool × Nat × Bool × Bool := (%d, %v, %d, %v, %v)\n\n",
+		of.propLoops, of.copiesIntoMap, of.channelBlocks, of.propsFirst, of.unconditionalFM)
 	b.WriteString("end Gen.C13\n")
 	return b.String(), nil
 }
